@@ -182,7 +182,7 @@ def run(ctx):
     else:
         recs = records(ctx, rng, nid)
     return common.pipeline(
-        ctx, [('SchemeMC', 'SchemeMC_%s.cfg' % ctx.tier)], 'Trace_Relations', recs, mutator=mutate,
+        ctx, [('SchemeMC', 'SchemeMC_C03_%s.cfg' % ctx.tier)], 'Trace_Relations', recs, mutator=mutate,
         nontrivial_of=lambda r: (r['op'], r['site'], r['in'].get('mode'), r['in'].get('c'), tuple(r['in'].get('frozen', ())), r['in'].get('depth')),
         rule='linearity triples and (model, rescaled model) pairs for all five integrators with constant and time-varying parameters, random frozen/nomut '
              'flags, c in {1/20,1/3,3,7.3,20} U random in [0.05,20]; whole models: equilibrium (nu0 possibly != 1, selection, dominance) -> one_pop -> split -> '
